@@ -164,6 +164,21 @@ def run(ctx):
                           "%s uses price %s" % (f.name, render(pv) if pv else "?"))
     ctx.check(n >= 3, "grid", "census", "-", "%d price-entry sites analysed (writes + constructor calls)" % n)
 
+    creation_rules(ctx, m)
+    # "the published per-level data accounts for all resting volume within its range": level i of a side is the volume and count
+    # stored at touch -/+ i ticks, and a level whose price would leave the price range publishes nothing (rule shared with C02)
+    from . import c02
+    from .c06 import _Prefixed
+    c02.level_walk(_Prefixed(ctx, "levels-"), m)
+
+    ctx.assume("tick_size > 0 (asserted by OrderBook::new; a deserialised snapshot is assumed to come from such a book)")
+
+
+
+def creation_rules(ctx, m):
+    """creation succeeds iff the limit price is on the grid (market orders always); a rejected creation has no effect; the
+    forwarding layers propagate the error before any own effect (shared with C18: the ValueError clause)"""
+    ctors = [f for f in ctx.prog.find(crate="bourse_book", adt="Order") if "-> bourse_book::types::Order" in f.sig and f.impl_trait is None and f.pub]
     # ---- creation: rejecting slice has no effect; both arms guarded (siblings)
     create = m.book_fn("create_order")
     cq = m.qi(create)
@@ -290,10 +305,3 @@ def run(ctx):
                     asserted = True
     ctx.check(asserted, "create", "tick-positive", ctx.loc(nf), "OrderBook::new refuses a tick size of 0 (the `price % tick_size` tests cannot divide by zero)",
               "OrderBook::new accepts tick_size == 0: every limit-order creation would divide by zero")
-    # "the published per-level data accounts for all resting volume within its range": level i of a side is the volume and count
-    # stored at touch -/+ i ticks, and a level whose price would leave the price range publishes nothing (rule shared with C02)
-    from . import c02
-    from .c06 import _Prefixed
-    c02.level_walk(_Prefixed(ctx, "levels-"), m)
-
-    ctx.assume("tick_size > 0 (asserted by OrderBook::new; a deserialised snapshot is assumed to come from such a book)")
